@@ -34,6 +34,8 @@ def run(rep, tier):
     from . import c05
     c05.winding_table(rep, F, rule="R14.7")
     helper_tables(rep, F)
+    wrap_tables(rep, F)
+    small_tables(rep, F)
 
 
 def defaults(rep, F):
@@ -621,3 +623,257 @@ def helper_tables(rep, F):
     except (KeyError, Unanalysable) as e:
         rep.bad("R14.8", "helper:remove_repeated_points:unanalysable", str(e))
     rep.floor("R14.8", "validation helper tables", n_ok, 4)
+
+
+# ------------------------------------------------------------------------------------------------ R14.9 / R14.10
+def _nested_model(ex, F, root_key):
+    """nested visit_validation(member, handler) = the member is valid (nothing happens, Ok) or it has one defect error_of(member), which the
+    wrapping closure handed down is invoked with (its own Result is returned); Box::new is the identity on the closure reference"""
+    from .. import citer
+
+    def m_visit(ex_, st, call, args):
+        member = ex_.canon(st, args[0])
+
+        def gen():
+            for val in (0, 1):
+                s2 = st.clone()
+                s2.assume(("call", "invalid", (member,)), val)
+                if val == 0:
+                    yield s2, "ret", ("adt", "core::result::Result", "Ok", (("tuple", ()),))
+                else:
+                    for s3, v in citer.call_fn_value(ex_, s2, args[1], [("call", "error_of", (member,))]):
+                        yield s3, "ret", v
+        return gen()
+
+    def m_id(ex_, st, call, args):
+        yield st, "ret", args[0]
+    for k in F.fns:
+        if k.endswith("::visit_validation") and k != root_key:
+            ex.models[k] = m_visit
+    ex.models[VAL + "::visit_validation"] = m_visit
+    ex.models["alloc::boxed::Box::<T>::new"] = m_id
+
+
+def wrap_tables(rep, F):
+    """R14.9: the collection types on three abstract members (member list unrolled exactly).  Each member is either valid or has one abstract
+    defect; the defect of member j must reach the caller's handler wrapped as Invalid<Member>(GeometryIndex(j), that defect) - the index names
+    the member that really has it - and on a complete run every member has been validated (a member may only be passed over on an explicit
+    emptiness test of that same member)."""
+    from ..symex import bare
+    from .. import citer
+    rep.rule("R14.9", "collections (3 abstract members, each valid or with one abstract defect): the defect of member j reaches the handler as Invalid*(GeometryIndex(j), defect of member j); "
+                      "on complete runs every member is validated; Geometry wraps each variant's defect in the matching InvalidGeometry variant")
+    specs = [("GeometryCollection", r"geometry_collection::GeometryCollection<F>$", GT + "geometry_collection::GeometryCollection", "InvalidGeometry"),
+             ("MultiLineString", r"multi_line_string::MultiLineString<F>$", GT + "multi_line_string::MultiLineString", "InvalidLineString"),
+             ("MultiPoint", r"multi_point::MultiPoint<F>$", GT + "multi_point::MultiPoint", "InvalidPoint"),
+             ("MultiPolygon", r"multi_polygon::MultiPolygon<F>$", GT + "multi_polygon::MultiPolygon", "InvalidPolygon")]
+    K = 3
+    for name, sre, adt, wrapper in specs:
+        try:
+            fn = F.impl_method(VAL, sre, None, "visit_validation", crates=("geo",))
+        except KeyError as e:
+            rep.bad("R14.9", "wrap:%s:anchor" % name, str(e))
+            continue
+        elems = tuple(("opaque", "m%d" % i) for i in range(K))
+        coll = ("&", ("adt", adt, name, (("call", "vec!", (("array", elems),)),)))
+        ex = Symex(F, inline_crates=("geo", "geo_types"), no_inline=API, loop_bound=K * K + 6, max_paths=200000, budget_s=90, concrete_iters=True)
+        _nested_model(ex, F, fn.key)
+        try:
+            paths = [p for p in ex.run(fn, args=[coll, ("arg", 2)]) if p.kind != "cut"]
+        except (Unanalysable, citer.NotConcrete) as e:
+            rep.bad("R14.9", "wrap:%s:unanalysable" % name, str(e), where=fn.loc())
+            continue
+        bad = None
+        n_ev = 0
+        for p in paths:
+            if p.kind != "ret":
+                bad = ("paths", "a path does not return (%s)" % p.kind)
+                break
+            atoms = [(bare(t), v) for t, v in p.pc]
+            invalid = {}
+            for b, v in atoms:
+                m = re.match(r"^invalid\(&?opaque\(m(\d)\)\)$", b)
+                if m:
+                    invalid[int(m.group(1))] = v
+            reported = {}
+            for err in _handler_events(p):
+                if err[2] != wrapper:
+                    continue
+                idx = bare(err[3][0])
+                mi = re.match(r"^GeometryIndex::GeometryIndex\((\d+)\)$", idx)
+                who = re.findall(r"error_of\(&?opaque\(m(\d)\)\)", bare(err))
+                if not mi or len(set(who)) != 1:
+                    bad = ("index", "the handler is given %s: not a member's defect under a constant member position" % bare(err)[:120])
+                    break
+                i, j = int(mi.group(1)), int(who[0])
+                n_ev += 1
+                if i != j:
+                    bad = ("index", "the defect of member %d is reported as %s(GeometryIndex(%d), ..): the error names a member that does not have it [%s]" % (j, wrapper, i, show_pc(p.pc)[:200]))
+                    break
+                reported[j] = True
+            if bad:
+                break
+            for j, v in invalid.items():
+                # every defect found reaches the handler, unless an earlier handler call returned Err (the run stops there)
+                if v == 1 and j not in reported:
+                    bad = ("lost", "member %d has a defect but no %s(GeometryIndex(%d), ..) reaches the handler" % (j, wrapper, j))
+                    break
+            if bad:
+                break
+            if bare(p.ret).startswith("Result::Ok"):
+                for j in range(K):
+                    if j in invalid:
+                        continue
+                    if any(re.search(r"is_empty\([^()]*opaque\(m%d\)" % j, b) for b, _v in atoms):
+                        continue          # passed over on an emptiness test of this very member
+                    bad = ("member-not-validated", "a complete run never validates member %d [%s]" % (j, show_pc(p.pc)[:200]))
+                    break
+            if bad:
+                break
+        if bad:
+            rep.bad("R14.9", "wrap:%s:%s" % (name, bad[0]), "%s: %s" % (name, bad[1]), where=fn.loc())
+        elif n_ev < 3:
+            rep.bad("R14.9", "wrap:%s:floor" % name, "only %d wrapped defects seen on %d paths" % (n_ev, len(paths)), where=fn.loc())
+        else:
+            rep.ok("R14.9", "wrap:%s[%d paths, %d wrapped defects]" % (name, len(paths), n_ev))
+    # Geometry: each variant's defect is wrapped in the matching variant of InvalidGeometry
+    try:
+        fn = F.impl_method(VAL, r"geo_types::geometry::Geometry<F>$", None, "visit_validation", crates=("geo",))
+        gv = [v["name"] for v in F.adts["geo_types::geometry::Geometry"]["variants"]]
+    except KeyError as e:
+        rep.bad("R14.9", "wrap:Geometry:anchor", str(e))
+        return
+    n = 0
+    for v in gv:
+        g = ("&", ("adt", "geo_types::geometry::Geometry", v, (("opaque", "m0"),)))
+        ex = Symex(F, inline_crates=("geo", "geo_types"), no_inline=API, max_paths=2000, budget_s=30)
+        _nested_model(ex, F, fn.key)
+        try:
+            paths = [p for p in ex.run(fn, args=[g, ("arg", 2)]) if p.kind != "cut"]
+        except (Unanalysable, citer.NotConcrete) as e:
+            rep.bad("R14.9", "wrap:Geometry:unanalysable", "%s: %s" % (v, e), where=fn.loc())
+            return
+        seen = False
+        for p in paths:
+            inv = [val for t, val in p.pc if bare(t).startswith("invalid(")]
+            evs = _handler_events(p)
+            if inv == [1]:
+                if len(evs) != 1 or evs[0][2] != "Invalid" + v or not re.search(r"error_of\(&?opaque\(m0\)\)", bare(evs[0])):
+                    rep.bad("R14.9", "wrap:Geometry:%s" % v, "a defect of a Geometry::%s reaches the handler as %s" % (v, [bare(e)[:80] for e in evs]), where=fn.loc())
+                    return
+                seen = True
+            elif evs:
+                rep.bad("R14.9", "wrap:Geometry:%s" % v, "an error is reported for a valid Geometry::%s" % v, where=fn.loc())
+                return
+        if not seen:
+            rep.bad("R14.9", "wrap:Geometry:%s" % v, "Geometry::%s is never validated" % v, where=fn.loc())
+            return
+        n += 1
+    rep.ok("R14.9", "wrap:Geometry[%d variants]" % n)
+
+
+def small_tables(rep, F):
+    """R14.10: Coord, Point, Line, Rect, Triangle and LineString (3 coordinates): the complete path table with the elementary checks as symbols
+    (check_coord_is_not_finite, check_too_few_points, robust_check_points_are_collinear, coordinate equality - each decided on witnesses by
+    R14.8) and the handler's answers.  On complete runs the errors reported are exactly those whose defining check holds, each naming the
+    coordinate(s) the check was applied to; no decision is taken on anything but these checks (no arithmetic pre-filter in front of an exact
+    predicate)."""
+    from ..symex import bare
+    rep.rule("R14.10", "Coord / Point / Line / Rect / Triangle / LineString(3): errors reported on a complete run = exactly the defining checks that hold (non-finite coordinate i, identical coordinates i,j, "
+                       "collinear only when no two are identical, too few points), on the coordinates named; no other data-dependent decision")
+    CO = GT + "coord::Coord"
+    c = lambda i: ("opaque", "c%d" % i)
+    NF = lambda i: r"^check_coord_is_not_finite\(&?opaque\(c%d\)\)$" % i
+    EQ = lambda i, j: r"^(\(opaque\(c%d\) == opaque\(c%d\)\)|eq\(&?opaque\(c%d\), &?opaque\(c%d\)\))$" % (i, j, i, j)
+    shapes = [
+        ("Coord", r"coord::Coord<F>$", c(0), [("NonFinite", (), [NF(0)], lambda a: a[0])]),
+        ("Point", r"point::Point<F>$", ("adt", GT + "point::Point", "Point", (c(0),)), [("NonFiniteCoord", (), [NF(0)], lambda a: a[0])]),
+        ("Line", r"line::Line<F>$", ("adt", GT + "line::Line", "Line", (c(0), c(1))),
+         [("NonFiniteCoord", (0,), [NF(0)], lambda a: a[0]), ("NonFiniteCoord", (1,), [NF(1)], lambda a: a[0]), ("IdenticalCoords", (), [EQ(0, 1)], lambda a: a[0])]),
+        ("Rect", r"rect::Rect<F>$", ("adt", GT + "rect::Rect", "Rect", (c(0), c(1))),
+         [("NonFiniteCoord", (0,), [NF(0)], lambda a: a[0]), ("NonFiniteCoord", (1,), [NF(1)], lambda a: a[0])]),
+        ("Triangle", r"triangle::Triangle<F>$", ("adt", GT + "triangle::Triangle", "Triangle", (c(0), c(1), c(2))),
+         [("NonFiniteCoord", (0,), [NF(0)], lambda a: a[0]), ("NonFiniteCoord", (1,), [NF(1)], lambda a: a[0]), ("NonFiniteCoord", (2,), [NF(2)], lambda a: a[0]),
+          ("IdenticalCoords", (0, 1), [EQ(0, 1)], lambda a: a[0]), ("IdenticalCoords", (0, 2), [EQ(0, 2)], lambda a: a[0]), ("IdenticalCoords", (1, 2), [EQ(1, 2)], lambda a: a[0]),
+          ("CollinearCoords", (), [EQ(0, 1), EQ(0, 2), EQ(1, 2), r"^robust_check_points_are_collinear\(&?opaque\(c0\), &?opaque\(c1\), &?opaque\(c2\)\)$"],
+           lambda a: (not a[0] and not a[1] and not a[2]) and a[3])]),
+        ("LineString", r"line_string::LineString<F>$", ("adt", GT + "line_string::LineString", "LineString", (("call", "vec!", (("array", (c(0), c(1), c(2))),)),)),
+         [("TooFewPoints", (), [r"^check_too_few_points\(.*, False\)$"], lambda a: a[0]),
+          ("NonFiniteCoord", (0,), [NF(0)], lambda a: a[0]), ("NonFiniteCoord", (1,), [NF(1)], lambda a: a[0]), ("NonFiniteCoord", (2,), [NF(2)], lambda a: a[0])]),
+    ]
+    for name, sre, shape, errors in shapes:
+        try:
+            fn = F.impl_method(VAL, sre, None, "visit_validation", crates=("geo",))
+        except KeyError as e:
+            rep.bad("R14.10", "small:%s:anchor" % name, str(e))
+            continue
+        ex = Symex(F, inline_crates=("geo", "geo_types"), no_inline=[a for a in API if "is_empty" not in a], loop_bound=6, max_paths=100000, budget_s=60, concrete_iters=True)
+        try:
+            paths = [p for p in ex.run(fn, args=[("&", shape), ("arg", 2)]) if p.kind != "cut"]
+        except Unanalysable as e:
+            rep.bad("R14.10", "small:%s:unanalysable" % name, str(e), where=fn.loc())
+            continue
+        bad = None
+        complete = 0
+        allre = [r for _v, _i, rs, _f in errors for r in rs]
+        for p in paths:
+            if p.kind != "ret":
+                bad = ("paths", "a path does not return (%s)" % p.kind)
+                break
+            atoms = [(bare(t), v) for t, v in p.pc]
+            val = {}
+            for b, v in atoms:
+                if re.match(r"^discr\((call_mut|call|call_once)\(", b):
+                    continue
+                hit = [r for r in allre if re.match(r, b)]
+                if not hit:
+                    bad = ("other-decision", "%s::visit_validation decides on `%s`, which is none of the checks that define its errors: an error can be suppressed or raised by something other than its check" % (name, b[:140]))
+                    break
+                for r in hit:
+                    val[r] = bool(v)
+            if bad:
+                break
+            got = []
+            for err in _handler_events(p):
+                idx = tuple(int(x) for x in re.findall(r"CoordIndex::CoordIndex\((\d+)\)", bare(err)))
+                got.append((err[2], idx))
+            if not bare(p.ret).startswith("Result::Ok"):
+                # an interrupted run: what was reported so far must still be justified by its check
+                for var, idx in got:
+                    spec = [e for e in errors if e[0] == var and e[1] == idx]
+                    if not spec or any(r not in val for r in spec[0][2]) or not spec[0][3]([val[r] for r in spec[0][2]]):
+                        bad = ("guard:" + var, "%s%s is reported on a path where its check does not hold [%s]" % (var, list(idx), show_pc(p.pc)[:160]))
+                        break
+                if bad:
+                    break
+                continue
+            complete += 1
+            want = []
+            for var, idx, rs, f in errors:
+                if any(r not in val for r in rs):
+                    # an undecided check is fine only if the error cannot be due whatever its value (short-circuit), e.g. collinearity after identical coordinates
+                    poss = set()
+                    import itertools as _it
+                    free = [r for r in rs if r not in val]
+                    for bits in _it.product((False, True), repeat=len(free)):
+                        a = dict(val)
+                        a.update(dict(zip(free, bits)))
+                        poss.add(bool(f([a[r] for r in rs])))
+                    if poss != {False}:
+                        bad = ("check-not-made:" + var, "a complete run of %s::visit_validation never decides the check of %s%s [%s]" % (name, var, list(idx), show_pc(p.pc)[:160]))
+                        break
+                    continue
+                if f([val[r] for r in rs]):
+                    want.append((var, idx))
+            if bad:
+                break
+            if sorted(got) != sorted(want):
+                bad = ("report-iff", "on a complete run with %s the errors reported are %s, the checks that hold define %s" % (
+                    ", ".join("%s=%s" % (b[:50], v) for b, v in atoms if not b.startswith("discr(")), got, want))
+                break
+        if bad:
+            rep.bad("R14.10", "small:%s:%s" % (name, bad[0]), bad[1], where=fn.loc())
+        elif complete < 2:
+            rep.bad("R14.10", "small:%s:floor" % name, "only %d complete runs" % complete, where=fn.loc())
+        else:
+            rep.ok("R14.10", "small:%s[%d paths, %d complete runs]" % (name, len(paths), complete))
